@@ -313,7 +313,7 @@ Section WithInput.
             end
     end.
 
-  Definition loop_fuel : nat := 4 * List.length data + 16.
+  Definition loop_fuel : nat := 8 * List.length data + 64.
 
   (* Scanner.Next() *)
   Definition next (cf : conf) : res (option lexeme * conf) :=
